@@ -537,7 +537,8 @@ def machine_wire(env, names, node):
 
 def machine_stream(ctx, cases):
     """implementation vs extracted machine model vs the set semantics, on the rule-free skeletons of the generated graphs"""
-    ml, il, meta = [], [], []
+    ml, il, meta, tl = [], [], [], []
+    hx = lambda t: t.encode("utf-8").hex() or "-"
     for names, env, root, docs in cases:
         try:
             env2 = {nm: strip_node(env[nm]) for nm in names}
@@ -551,20 +552,31 @@ def machine_stream(ctx, cases):
         for d in docs or []:
             ml.append("%s ; %s ; %s" % (wr, J.doc_wire(d), we))
             meta.append((env2, root2, d, schema, types))
+            # the same case from its TEXTS, inside the extracted model (Schema/E2ETypes.v): scanner -> loader -> graph; JSON scanner -> events -> machine
+            tl.append("0 ; %s ; %s ; %s" % (hx(schema), hx(J.print_doc(d)), " ; ".join("%s %s" % (hx(n), hx(t)) for n, t in types)))
         il.append(json.dumps({"schema": schema, "types": types, "ops": [["check"]] + [["validate", J.print_doc(d)] for d in (docs or [])]}))
     if not ml:
         return
     mo = vc.model_parallel("machine_spec", ml)
+    to = vc.model_parallel("e2e_types_model", tl)
+    nt = 0
     io = vc.impl_isolating(["schema"], il, 1)
     flat = []
     for o, (names, env, root, docs) in zip(io, [c for c in cases if _wirable(c)]):
         r = json.loads(o)
         flat += [(r[0], x) for x in (r[1:] if len(r) > 1 else ["-"] * len(docs or []))] if r[0] == "ok" else [(r[0], None)] * len(docs or [])
     n = 0
-    for (env2, root2, d, schema, types), m, (chk, got) in zip(meta, mo, flat):
+    for (env2, root2, d, schema, types), m, (chk, got), tm in zip(meta, mo, flat, to):
         if chk != "ok" or got is None:
             continue
         n += 1
+        if tm != "OUT":          # allOf lies outside the text fragment (the loader model does not flatten it)
+            nt += 1
+            tcode = "ok" if got == "ok" else got.split("@")[0]
+            if tm != tcode and len(ctx.violations) < 40:
+                ctx.report("Validate(%s) says %s, the Coq pipeline from the TEXTS (schema scanner, loader, type graph, JSON scanner, event machine) says %s; schema %r types %r" % (
+                    J.print_doc(d)[:80], got, tm, schema[:80], [t[1][:40] for t in types][:4]), "c03texts:" + schema + J.doc_wire(d),
+                    {"schema": schema, "types": types, "document": J.print_doc(d), "implementation": got, "pipeline_from_texts": tm}, case={"schema": schema, "types": types, "document": J.print_doc(d)}, no_input=True)
         ctx.evaluations += 1
         code = "ok" if got == "ok" else got.split("@")[0]
         want = accepts(env2, root2, d)
@@ -579,6 +591,7 @@ def machine_stream(ctx, cases):
             ctx.report("Validate(%s) says %s, the event-level machine model says %s; schema %r types %r" % (J.print_doc(d)[:80], got, m, schema[:80], [t[1][:40] for t in types][:4]),
                        "c03machine:" + schema + J.doc_wire(d), info, case=info, no_input=True)
     ctx.extra["machine_model_cases"] = n
+    ctx.extra["cases_run_from_their_texts_inside_the_model"] = nt
 
 
 def _wirable(c):
